@@ -33,6 +33,11 @@ double vf_paramf(const char * n) { return std::strtod(lookup(n).c_str(), nullptr
 double vf_angle(const char * n, double, double) { return vf_f64(n); }
 double vf_pi() { return M_PI; }
 int64_t vf_enum(int64_t v) { return v; }
+bool vf_eq(double a, double b)
+{
+  double m = std::fmax(1.0, std::fmax(std::fabs(a), std::fabs(b)));
+  return std::fabs(a - b) <= 1e-9 * m;
+}
 void vf_assume(bool c)
 {
   if (!c) {
